@@ -90,19 +90,25 @@ type rchunk struct {
 type TConn struct {
 	log *evlog
 	// write side
-	calls   int
-	faults  map[int]fault
-	wire    []byte
-	curWD   time.Time // write deadline in force (last SetWriteDeadline that succeeded)
-	wantWD  time.Time
-	wantSet bool
-	wdBad   string
+	calls            int
+	faults           map[int]fault
+	wire             []byte
+	curWD            time.Time // write deadline in force (last SetWriteDeadline that succeeded)
+	wantWD           time.Time
+	wantSet          bool
+	wdBad            string
+	faultFired       bool // a scripted write-side fault has been returned to the package
+	writesAfterFault int  // transport Write calls made after that (C10: must stay 0)
 	// read side
-	chunks   [][]byte
-	term     error // terminal error, repeated forever once reached
-	together bool  // terminal is returned together with the last chunk's last bytes
-	readLog  bool
-	reads    int
+	chunks       [][]byte
+	term         error // terminal error, repeated forever once reached
+	together     bool  // terminal is returned together with the last chunk's last bytes
+	readLog      bool
+	after        [][]byte // served after the terminal error has been returned once (transient fault)
+	termGiven    bool
+	apiFailed    bool // the harness saw NextReader / ReadMessage return an error
+	readAfterErr int  // transport reads that happened after the error was returned (must stay 0)
+	reads        int
 	// misc
 	closed    int
 	deadlines []string
@@ -171,6 +177,12 @@ func (c *TConn) Write(p []byte) (int, error) {
 	f, ok := c.faults[k]
 	cp := append([]byte(nil), p...)
 	c.checkWD(len(p))
+	if c.faultFired {
+		c.writesAfterFault++
+	}
+	if ok {
+		c.faultFired = true
+	}
 	if !ok {
 		c.wire = append(c.wire, cp...)
 		if !c.quiet {
@@ -221,6 +233,7 @@ func (c *TConn) SetWriteDeadline(t time.Time) error {
 	if !c.quiet {
 		c.log.add(fmt.Sprintf("swd:%s:F%d", timeTok(t), f.id))
 	}
+	c.faultFired = true
 	return &tErr{id: f.id, timeout: f.to}
 }
 
@@ -263,7 +276,16 @@ func (c *TConn) Read(p []byte) (int, error) {
 			c.chunks = [][]byte{b}
 		}
 	}
+	if len(c.chunks) == 0 && c.termGiven && c.apiFailed && len(c.after) > 0 {
+		// the terminal error was transient (e.g. a timeout): the transport has more bytes. A correct
+		// reader never gets here: NextReader has reported the error, it is latched and nothing reads
+		// again. (Before the API has reported it the error stays sticky, as in the model: io.CopyN may
+		// legitimately swallow an error that arrives together with the last skipped byte.)
+		c.chunks, c.after = c.after, nil
+		c.readAfterErr++
+	}
 	if len(c.chunks) == 0 {
+		c.termGiven = true
 		if c.term == nil {
 			return 0, io.EOF
 		}
@@ -275,6 +297,7 @@ func (c *TConn) Read(p []byte) (int, error) {
 	if n == len(ch) {
 		c.chunks = c.chunks[1:]
 		if len(c.chunks) == 0 && c.together {
+			c.termGiven = true
 			t := c.term
 			if t == nil {
 				t = io.EOF
